@@ -73,6 +73,8 @@ def _rayleigh_mod(A, v):
     """|v^H A v| / (v^H v) with the harness's own Hamilton product; v is (n,1,4)."""
     num = ref.qmm(ref.conjT(v), ref.qmm(A, v))
     den = float(np.sum(v * v))
+    if not den > 0.0:
+        return float("nan")          # zero vector: the unit-norm clause reports it; NaN makes dependent clauses fail too
     return float(np.sqrt(np.sum(num * num))) / den
 
 
@@ -177,7 +179,9 @@ def gap_spectrum(draw, n):
     if draw(st.integers(0, 9)) == 0:
         mag = draw(st.sampled_from([1e-3, 1.0, 1e3]))
     else:
-        mag = draw(st.integers(16, 159)) / 16.0 * 10.0 ** draw(st.integers(-3, 2))
+        # the iteration is scale free; a 1-in-5 share of far scales exposes absolute thresholds in the code
+        mag = draw(st.integers(16, 159)) / 16.0 * 10.0 ** draw(
+            st.sampled_from([-3, -2, -1, 0, 0, 1, 2, -3, -2, -1, 0, 0, 1, 2, -12, -9, 8, 12]))
     lam1 = sign * mag
     if n == 1:
         return np.array([lam1]), {"gap": "n1", "rest": "none"}
@@ -229,7 +233,7 @@ def arbitrary_matrix(draw, nmax):
     A, _pat = draw(gen.qarray(n, n, draw(st.sampled_from(ARB_PATTERNS))))
     A = A.copy()
     if kind == "scaled":
-        A = A * 10.0 ** draw(st.integers(-3, 3))
+        A = A * 10.0 ** draw(st.sampled_from([-12, -9, -3, -2, -1, 1, 2, 3, 9, 12]))
     elif kind == "nilpotent":
         for i in range(n):
             A[i, : i + 1] = 0.0
